@@ -340,6 +340,42 @@ api_harness!(enter_with_parent_matches_model, stub_ready, {
     std::mem::forget(parent);
 });
 
+
+// C02 "delivered once per parent, in that parent's trace": a parent that itself lives in two traces
+// (a two-item token) hands BOTH items on to a child created through the real enter_with_parents
+// chain -- one item per trace, each naming the parent span, in the parent's order.  (The model above is
+// proved equal to the real function only for a one-item parent; this is the two-item case on the real one.)
+api_harness!(child_of_two_trace_parent_is_in_both_traces, stub_ready, {
+    let i1 = any_item();
+    let i2 = any_item();
+    let parent = Span::new(vec![i1, i2], "p", None);
+    let pid = id_of(&parent);
+    let child = Span::enter_with_parent("c", &parent);
+    let t = token_of(&child);
+    kani::assert(t.len() == 2, "child_is_attached_in_every_trace_of_its_parent: one token item per trace of the parent");
+    kani::assert(t[0] == CollectTokenItem { trace_id: i1.trace_id, parent_id: pid, collect_id: i1.collect_id, is_root: false, is_sampled: i1.is_sampled },
+        "child_is_attached_in_every_trace_of_its_parent: first item names the parent span in the parent's first trace");
+    kani::assert(t[1] == CollectTokenItem { trace_id: i2.trace_id, parent_id: pid, collect_id: i2.collect_id, is_root: false, is_sampled: i2.is_sampled },
+        "child_is_attached_in_every_trace_of_its_parent: second item names the parent span in the parent's second trace");
+    kani::assert(nlog() == 0, "child_creation_sends_nothing: creating a child sends no command");
+    std::mem::forget(child);
+    std::mem::forget(parent);
+});
+
+// C16: the root-only half of root_without_reporter_is_noop, kept separate so that a root that wrongly
+// stays live before a reporter is installed fails here, in seconds, instead of sending CBMC into the
+// iterator chain of enter_with_parents over a live parent
+api_harness!(root_before_reporter_is_noop, stub_not_ready, {
+    let root = Span::root("root", any_ctx());
+    kani::assert(root.inner.is_none(), "root_before_reporter_is_noop: a root created before a reporter is installed is a no-op span, sampled or not");
+    kani::assert(SpanContext::from_span(&root).is_none(), "not_recording_span_has_no_context: from_span is None");
+    kani::assert(root.elapsed().is_none(), "not_recording_span_has_no_context: elapsed is None");
+    let root = root.with_properties(|| { kani::assert(false, "closures_not_invoked_when_not_recording: with_properties on a root created before a reporter is installed"); [("k", "v")] });
+    root.cancel();
+    drop(root);
+    kani::assert(nlog() == 0, "not_recording_span_sends_nothing: no command at all");
+});
+
 macro_rules! api_harness_m {
     ($name:ident, $body:block) => {
         #[kani::proof]
